@@ -276,6 +276,9 @@ func zeta_imp(s, sc float64) float64 {
         v, _   := math.Lgamma(s)
         result  = v
         result -= s * math.Log(2.0*math.Pi)
+        // mult = 2 sin(pi s/2) zeta(s) may be << 1: add its logarithm before
+        // testing for overflow
+        result += math.Log(math.Abs(mult))
         if result > MaxLogFloat64 {
           if math.Signbit(mult) {
             return math.Inf(-1)
@@ -284,14 +287,9 @@ func zeta_imp(s, sc float64) float64 {
           }
         }
         result = math.Exp(result)
-        if math.MaxFloat64 / math.Abs(mult) < result {
-          if math.Signbit(mult) {
-            return math.Inf(-1)
-          } else {
-            return math.Inf(+1)
-          }
+        if math.Signbit(mult) {
+          result = -result
         }
-        result *= mult
       } else {
         result = SinPi(0.5*sc) * 2 * math.Pow(2.0*math.Pi, -s) * math.Gamma(s) * zeta_imp(s, sc)
       }
